@@ -60,6 +60,114 @@ theorem value_of_token (A : Option Assets) (t : Table) :
         simp only [h1, h2, Token.node.injEq] at h ⊢
         rw [h.1, map_value_of_token (value_of_token A t f) _ _ h.2]
 
+/-! ### an arbitrary naming of instruction content (`normalize_token`) and the merged evaluation
+
+What dask hashes of the function object is decided by `normalize_token`: pickled content by default, whatever a
+registered handler returns otherwise. `nm : Instr → N` is that function; `Table.sameName` says that two instructions get
+the same task name (equal `nm` of the instructions, pairwise equally named argument tasks); `Table.valueMerged` is what
+the graph computes when equally named tasks are one task - an instruction is evaluated by *a representative* of its
+name (the first symbol of the table carrying it), over the merged arguments of that representative. -/
+
+/-- pairwise `p` on two lists of equal length -/
+def all₂ (p : α → β → Bool) : List α → List β → Bool
+  | [], [] => true
+  | a :: as, b :: bs => p a b && all₂ p as bs
+  | _, _ => false
+
+/-- do `k₁` and `k₂` get the same task name under the content naming `nm`? -/
+def Table.sameName [DecidableEq N] (nm : Instr → N) (t : Table) : Nat → Key → Key → Bool
+  | 0, _, _ => true
+  | f + 1, k₁, k₂ =>
+    match t.find k₁, t.find k₂ with
+    | none, none => true
+    | some s₁, some s₂ => decide (nm s₁.instr = nm s₂.instr) && all₂ (Table.sameName nm t f) s₁.args s₂.args
+    | _, _ => false
+
+/-- the instruction that stands for the task name of `k`: the first symbol of the table with that name -/
+def Table.repKey [DecidableEq N] (nm : Instr → N) (t : Table) (f : Nat) (k : Key) : Key :=
+  match t.find? (fun s => t.sameName nm f s.id k) with
+  | some s => s.id
+  | none => k
+
+/-- evaluation of the graph in which equally named tasks are one task -/
+def Table.valueMerged [DecidableEq N] (nm : Instr → N) (A : Option Assets) (t : Table) : Nat → Key → Val
+  | 0, _ => .error .fuel
+  | f + 1, k =>
+    match t.find (t.repKey nm (f + 1) k) with
+    | none => .error .unbound
+    | some s => exec A s.instr (s.args.map (Table.valueMerged nm A t f))
+
+/-- the naming tells the instruction contents of the table apart -/
+def Table.namesInjective (nm : Instr → N) (t : Table) : Prop :=
+  ∀ s₁ ∈ t, ∀ s₂ ∈ t, nm s₁.instr = nm s₂.instr → s₁.instr = s₂.instr
+
+theorem Table.find_mem : ∀ {t : Table} {k : Key} {s : Symbol}, t.find k = some s → s ∈ t
+  | [], _, _, h => by cases h
+  | x :: r, k, s, h => by
+    simp only [Table.find] at h
+    split at h
+    · cases h; exact List.mem_cons_self ..
+    · exact List.mem_cons_of_mem _ (Table.find_mem h)
+
+theorem all₂_map_eq {p : α → α → Bool} {g : α → β} (h : ∀ a b, p a b = true → g a = g b) :
+    ∀ (l₁ l₂ : List α), all₂ p l₁ l₂ = true → l₁.map g = l₂.map g
+  | [], [], _ => rfl
+  | [], _ :: _, hp => by simp [all₂] at hp
+  | _ :: _, [], hp => by simp [all₂] at hp
+  | a :: l₁, b :: l₂, hp => by
+    simp only [all₂, Bool.and_eq_true] at hp
+    simp only [List.map_cons, List.cons.injEq]
+    exact ⟨h a b hp.1, all₂_map_eq h l₁ l₂ hp.2⟩
+
+/-- under a naming that is injective on the instruction contents of the table, equally named tasks compute the same
+value -/
+theorem value_of_sameName [DecidableEq N] {nm : Instr → N} (A : Option Assets) {t : Table}
+    (hinj : t.namesInjective nm) :
+    ∀ (f : Nat) (k₁ k₂ : Key), t.sameName nm f k₁ k₂ = true → Table.value A t f k₁ = Table.value A t f k₂
+  | 0, _, _, _ => rfl
+  | f + 1, k₁, k₂, h => by
+    simp only [Table.sameName] at h
+    simp only [Table.value]
+    cases h1 : t.find k₁ with
+    | none =>
+      cases h2 : t.find k₂ with
+      | none => rfl
+      | some s₂ => simp [h1, h2] at h
+    | some s₁ =>
+      cases h2 : t.find k₂ with
+      | none => simp [h1, h2] at h
+      | some s₂ =>
+        simp only [h1, h2, Bool.and_eq_true, decide_eq_true_eq] at h
+        simp only
+        rw [hinj s₁ (Table.find_mem h1) s₂ (Table.find_mem h2) h.1,
+          all₂_map_eq (value_of_sameName A hinj f) _ _ h.2]
+
+theorem Table.sameName_repKey [DecidableEq N] (nm : Instr → N) (t : Table) (f : Nat) (k : Key) :
+    t.repKey nm f k = k ∨ t.sameName nm f (t.repKey nm f k) k = true := by
+  unfold Table.repKey
+  cases h : t.find? (fun s => t.sameName nm f s.id k) with
+  | none => exact Or.inl rfl
+  | some s => exact Or.inr (by simpa using List.find?_some h)
+
+/-- **merging equally named tasks is invisible iff the naming is injective on instruction content** (this direction):
+with such a naming the merged graph computes, for every instruction, the dependency-ordered value -/
+theorem valueMerged_eq [DecidableEq N] {nm : Instr → N} (A : Option Assets) {t : Table} (hinj : t.namesInjective nm) :
+    ∀ (f : Nat) (k : Key), Table.valueMerged nm A t f k = Table.value A t f k
+  | 0, _ => rfl
+  | f + 1, k => by
+    have hv : Table.value A t (f + 1) (t.repKey nm (f + 1) k) = Table.value A t (f + 1) k := by
+      rcases Table.sameName_repKey nm t (f + 1) k with h | h
+      · rw [h]
+      · exact value_of_sameName A hinj (f + 1) _ _ h
+    rw [← hv]
+    simp only [Table.valueMerged, Table.value]
+    cases t.find (t.repKey nm (f + 1) k) with
+    | none => rfl
+    | some s =>
+      simp only
+      congr 1
+      exact List.map_congr_left (fun a _ => valueMerged_eq A hinj f a)
+
 /-! ### the same for tables whose functors carry their builder -/
 
 def PTable.find (T : PTable) (k : Key) : Option PSymbol :=
